@@ -37,6 +37,8 @@ type Program struct {
 
 	cg       *callgraph.Graph
 	reachMem map[string]map[*ssa.Function]bool
+	callSites   map[*ssa.Function][]*ssa.Call // direct call sites by callee (directCallSites)
+	usedAsValue map[*ssa.Function]bool
 	LoadS    float64
 }
 
@@ -48,6 +50,9 @@ func repoDir() string {
 }
 
 // Load loads ./... of the repository for the given GOARCH ("" = amd64).
+// theProgram: the program being analysed (for helpers that follow a value to its call sites).
+var theProgram *Program
+
 func Load(arch string) (*Program, error) {
 	t0 := time.Now()
 	if arch == "" {
@@ -98,6 +103,7 @@ func Load(arch string) (*Program, error) {
 	}
 	p.AllFns = ssautil.AllFunctions(prog)
 	p.LoadS = time.Since(t0).Seconds()
+	theProgram = p
 	return p, nil
 }
 
@@ -496,4 +502,82 @@ func setWordBits(arch string) {
 	if arch == "386" || arch == "arm" {
 		wordBits = 32
 	}
+}
+
+// directCallSites: the call sites of an unexported in-repo function or method
+// that is never used as a value (so these are all its callers). ok is false
+// for exported functions, functions used as values (including go/defer and
+// interface method sets: methods are refused unless unexported on an
+// unexported-or-not type but never bound), and functions without any call.
+func (p *Program) directCallSites(fn *ssa.Function) ([]*ssa.Call, bool) {
+	if p.callSites == nil {
+		p.callSites = map[*ssa.Function][]*ssa.Call{}
+		p.usedAsValue = map[*ssa.Function]bool{}
+		for _, g := range p.RepoFuncs() {
+			fns := []*ssa.Function{g}
+			fns = append(fns, g.AnonFuncs...)
+			for k := 0; k < len(fns); k++ {
+				h := fns[k]
+				if k > 0 {
+					fns = append(fns, h.AnonFuncs...)
+				}
+				for _, b := range h.Blocks {
+					for _, ins := range b.Instrs {
+						var ops [24]*ssa.Value
+						for _, op := range ins.Operands(ops[:0]) {
+							if op == nil || *op == nil {
+								continue
+							}
+							callee, isFn := (*op).(*ssa.Function)
+							if !isFn {
+								continue
+							}
+							if c, isCall := ins.(*ssa.Call); isCall && c.Common().Value == ssa.Value(callee) && !c.Common().IsInvoke() {
+								// the function in call position; it may also appear among the arguments
+								n := 0
+								for _, a := range c.Common().Args {
+									if a == ssa.Value(callee) {
+										n++
+									}
+								}
+								if n > 0 {
+									p.usedAsValue[callee] = true
+								}
+								p.callSites[callee] = append(p.callSites[callee], c)
+								continue
+							}
+							p.usedAsValue[callee] = true
+						}
+					}
+				}
+			}
+		}
+	}
+	if fn == nil {
+		return nil, false
+	}
+	obj := fn.Object()
+	if obj == nil && fn.Origin() != nil {
+		obj = fn.Origin().Object() // an instance of a generic function
+	}
+	if fn == nil || obj == nil || obj.Exported() || p.usedAsValue[fn] || (fn.Origin() != nil && p.usedAsValue[fn.Origin()]) {
+		return nil, false
+	}
+	if recv := fn.Signature.Recv(); recv != nil {
+		// a method can be reached through an interface: only when its name is unexported
+		// and no interface of the repository declares it do direct calls cover all callers;
+		// keep it simple and sound: refuse methods
+		return nil, false
+	}
+	cs := p.callSites[fn]
+	// a call site may be recorded once per operand occurrence: dedupe
+	var out []*ssa.Call
+	seen := map[*ssa.Call]bool{}
+	for _, c := range cs {
+		if !seen[c] {
+			seen[c] = true
+			out = append(out, c)
+		}
+	}
+	return out, len(out) > 0
 }
